@@ -508,7 +508,7 @@ impl TempDir {
     pub fn new(tag: &str) -> TempDir {
         static N: std::sync::atomic::AtomicU64 = std::sync::atomic::AtomicU64::new(0);
         let n = N.fetch_add(1, std::sync::atomic::Ordering::SeqCst);
-        let p = PathBuf::from(format!("/var/tmp/oalmc-{}-{tag}{n}", std::process::id()));
+        let p = PathBuf::from(format!("/var/tmp/oalmc-{}-{tag}{n} \u{e9}", std::process::id()));
         let _ = std::fs::remove_dir_all(&p);
         std::fs::create_dir_all(&p).expect("cannot create scratch directory");
         TempDir(p)
